@@ -38,20 +38,26 @@ LEVEL_TEXT = (
     "(start_ok = Sched.startState_ok; the visited keys are exactly those reachable from the request, "
     "seen_iff_reachable), nested_get keeps the request's nesting (nestedGet_shape), the FIFO adversary = the "
     "synchronous scheduler is never rejected and ends within #keys iterations (sync_scheduler_terminates), so "
-    "get_async_correct states the property with no hypothesis beyond: graph "
-    "acyclic and closed, dependencies listed once, requested keys present. The tie: the real `state` dict is "
-    "compared with the model at every callback of get_async under a controlled executor with the same adversary "
-    "choices; start_state_from_dask, finish_task, release_data are also diffed at function level.")
+    "get_async_correct states the property with no hypothesis beyond: graph acyclic and closed, dependencies listed "
+    "once, requested keys present (GraphOK/Hyp: both shown satisfiable by examples). PROVED FOR ALL INPUTS: the "
+    "above, for the empty start cache. VALIDATED ONLY (differential tie, no theorem): the real `state` dict vs the "
+    "model at every callback of get_async under a controlled executor with the same adversary choices; "
+    "start_state_from_dask, finish_task, release_data, nested_get at function level; keys that are false in a boolean "
+    "context (0, '', (), b''); a caller-supplied cache= (model startStateC/getAsyncC, which is definitionally the proved "
+    "model for the empty cache: startStateC_nil, getAsyncC_nil); the threaded, ThreadPoolExecutor and multiprocessing "
+    "schedulers at API level.")
 LEVEL_NOTE = (
     "OS thread / process timing is NOT modelled: the model quantifies over every order in which outstanding "
     "batches may complete (adversary), the real executors (ThreadPoolExecutor, ProcessPoolExecutor, Queue, "
-    "pickling of tasks for multiprocessing) are trusted to deliver some such order and are exercised only by "
-    "the API-level differential runs. Trusted: Lean kernel + propext/Classical.choice/Quot.sound; the "
-    "correspondence harness; dask.order (priorities are an arbitrary parameter of the model; the harness feeds "
-    "the real ones); convert_legacy_graph (C08) for the rendering of legacy graphs.")
+    "pickling of tasks for multiprocessing, dask.threaded's per-thread pool table) are trusted to deliver some such "
+    "order and are exercised only by the API-level differential runs. Trusted: Lean kernel + propext/Classical.choice/"
+    "Quot.sound; the correspondence harness; dask.order (priorities are an arbitrary parameter of the model; the harness "
+    "feeds the real ones; runs with priority ties skip the state diff); convert_legacy_graph (C08) for the rendering of "
+    "legacy graphs. Review round: three crashes of the cache= option (a key of the graph already in the cache) were "
+    "repaired in /repo (d3f7a74).")
 TECHNIQUE = "Lean 4 invariant proof over an adversarial state machine + differential state-trace correspondence under a controlled executor"
 ASSUMPTIONS = ["tasks are pure functions of their dependency values (symbolic `apply`)",
-               "a user-supplied shared `cache=` mapping is outside the model (cache starts empty)",
+               "the theorems are for the empty start cache; a caller-supplied `cache=` mapping is modelled and diffed, not proved",
                "graphs are closed (every dependency is a key of the graph) - dask raises 'Missing dependency' otherwise (malformed stream)"]
 TRUSTED = ["concurrent.futures / threading / multiprocessing deliver completions in SOME order (adversarial order is modelled, timing is not)"]
 
@@ -237,6 +243,43 @@ def _pool(n):
     return _POOLS[n]
 
 
+_TPOOLS = {}
+
+
+def _tpool(n):
+    import multiprocessing.pool
+    if n not in _TPOOLS:
+        _TPOOLS[n] = multiprocessing.pool.ThreadPool(n)
+    return _TPOOLS[n]
+
+
+def run_custom(sched, dsk, real_req, nw, cs, **kw):
+    """the other ways into get_async: dask.threaded.get called from a helper thread (its per-thread pool table and the
+    clean-up of pools of finished threads), dask.threaded.get(pool=<multiprocessing.pool.ThreadPool>) (wrapped in
+    MultiprocessingPoolExecutor), dask.local.get_apply_async (submit_apply_async, default pack_exception)"""
+    import threading
+
+    from dask.local import get_apply_async
+    from dask.threaded import get as tget
+    if sched == "pool-arg":
+        return tget(dsk, real_req, pool=_tpool(nw), chunksize=cs, **kw)
+    if sched == "apply_async":
+        return get_apply_async(_tpool(nw).apply_async, nw, dsk, real_req, chunksize=cs, **kw)
+    box = {}
+
+    def target():
+        try:
+            box["r"] = tget(dsk, real_req, num_workers=nw, chunksize=cs, **kw)
+        except BaseException as e:   # handed back to the caller's thread
+            box["e"] = e
+    t = threading.Thread(target=target)
+    t.start()
+    t.join()
+    if "e" in box:
+        raise box["e"]
+    return box["r"]
+
+
 def case_api(ctx, inp):
     """the public schedulers on a random DAG vs the recursive evaluator and the Lean denote"""
     import dask
@@ -244,7 +287,7 @@ def case_api(ctx, inp):
     dag, req, sched, nw, cs = inp["dag"], inp["req"], inp["sched"], inp["nw"], inp["cs"]
     rng = random.Random(inp.get("seed", 0))
     tasks = [i for i, nd in enumerate(dag["nodes"]) if nd[0] == "t"]
-    delays = {i: rng.choice([0, 0, 0.0005, 0.002]) for i in tasks} if sched in ("threaded", "threadpool") else {}
+    delays = {i: rng.choice([0, 0, 0.0005, 0.002]) for i in tasks} if sched not in ("sync", "mp") else {}
     dsk, keys = U.render(dag, None, delays)
     real_req = U.map_req(req, lambda i: keys[i])
     ev = U.reference_eval(dag, None, inp.get("cache0"))
@@ -263,6 +306,8 @@ def case_api(ctx, inp):
         elif sched == "mp":
             from dask.multiprocessing import get as mget
             got = mget(dsk, real_req, num_workers=nw, chunksize=cs, optimize_graph=inp.get("optimize", True))
+        elif sched in ("threaded-in-thread", "pool-arg", "apply_async"):
+            got = run_custom(sched, dsk, real_req, nw, cs)
         else:
             raise AssertionError(sched)
     except Exception as e:
@@ -370,7 +415,7 @@ def generate(ctx):
         if rng.random() < 0.3:
             yield "start", {"dag": inp["dag"], "req": inp["req"], "cache0": _gen_cache0(rng, inp["dag"]),
                             "keys_none": rng.random() < 0.3}
-    scheds = ["sync", "sync", "threaded", "threaded", "threadpool"]
+    scheds = ["sync", "sync", "threaded", "threaded", "threadpool", "threaded-in-thread", "pool-arg", "apply_async"]
     for i in range(ctx.n(80, 1200)):
         inp = U.gen_trace_input(rng, max_n=rng.choice([6, 12, 25, 40]))
         yield "api", {"dag": inp["dag"], "req": inp["req"], "sched": rng.choice(scheds), "nw": rng.choice([1, 2, 3, 4, 8]),
